@@ -91,8 +91,34 @@ def init_value(c, v):
     return "%g" % (1.0 + ((c * 7 + v * 3) % 5) * 0.25)
 
 
+UNITS = {"volt": 1.0, "millivolt": 1e-3, "kilovolt": 1e3}
+UNITS_DEF = ('<units name="millivolt"><unit prefix="milli" units="volt"/></units>\n'
+             '<units name="kilovolt"><unit prefix="kilo" units="volt"/></units>\n')
+
+
+def cellml_text(s):
+    """the document; when the system carries "_units" (one units name per component) every variable and number of a
+    component is in that component's units, so that connected variables have compatible but differently SCALED units"""
+    xml = A.to_cellml(s, A.Naming("plain"), init_value=init_value)
+    us = s.get("_units")
+    if not us:
+        return xml
+    out, ci = [], -1
+    for line in xml.split("\n"):
+        if line.startswith("<component name="):
+            ci += 1
+        if ci >= 0 and not line.startswith("<connection") and not line.startswith("<encapsulation") and not line.startswith("<map_") and ci < len(us):
+            line = line.replace('units="dimensionless"', 'units="%s"' % us[ci])
+        if line.startswith("</component>") and ci == len(us) - 1:
+            ci = len(us)          # nothing after the last component is touched
+        out.append(line)
+        if line.startswith("<model "):
+            out.append(UNITS_DEF.rstrip("\n"))
+    return "\n".join(out)
+
+
 def cellml_hex(s):
-    return A.to_cellml(s, A.Naming("plain"), init_value=init_value).encode().hex()
+    return cellml_text(s).encode().hex()
 
 
 def marks_text(marks):
@@ -413,7 +439,7 @@ def code_tokens(impl_c):
                         toks.append(("zr" if arr == "rates" else "zv") + idx)
                     elif arr == "rates":
                         toks.append("r" + idx)
-                    elif key == "BI" and not re.search(r"\b\d{4,}\.0\b", rhs):
+                    elif key == "BI" and not re.search(r"\b1(?!000\b)\d{3}\.0\b", rhs):
                         toks.append("iv" + idx)
                     else:
                         toks.append("v" + idx)
@@ -821,8 +847,25 @@ def check_execution(system, an, marks_kept, run, ignore_eqs=frozenset()):
                         if k in ext and ext[k]["eqs"] and ext[k]["eqs"][0] not in an.eqs[e]["deps"]:
                             return True
         return False
+    def rate_of_external(e):
+        """the equation mentions d(x)/dt of a variable x that is marked external (no longer a state)"""
+        def diffs(x, out):
+            if x[0] == "D":
+                out.append(x[2])
+            elif x[0] == "O":
+                diffs(x[1], out)
+                diffs(x[2], out)
+            return out
+        for c in system["comps"]:
+            byname = {v["name"]: v["cls"] for v in c["vars"]}
+            for q in c["eqs"]:
+                if str(q["id"]) == e:
+                    return any(byname[n] in ext for n in diffs(q["lhs"], []) + diffs(q["rhs"], []))
+        return False
     for e, text in value_failures(system, an, run, stats):
-        if stale_external(e):
+        if rate_of_external(e):
+            known.append(("C20-rate-of-external-variable", text + " (the generated code uses the VALUE of the external variable where its rate is meant)"))
+        elif stale_external(e):
             known.append(("C20-nla-external-dependency", text + " (solved with the value the external variable had in initialiseVariables)"))
         elif e in ignore_eqs:
             stats["value_failures_also_without_marks"] = stats.get("value_failures_also_without_marks", 0) + 1
@@ -882,22 +925,40 @@ def value_failures(system, an, run, stats):
         if v["array"] == "states":
             return arrays["R" if rate else "S"][v["index"]]
         return arrays["V"][v["index"]]
+    # scaled units: the arrays hold every class in the units of its primary variable; inside component ci a value reads
+    # value * scale(primary's component) / scale(ci); a rate is divided by the same ratio for the variable of integration
+    us = system.get("_units")
+
+    def scale_of(k, ci):
+        if not us:
+            return 1.0
+        pv = an.voi_var if k == an.voi else an.vars.get(k, {}).get("var")
+        if pv is None:
+            return 1.0
+        return UNITS[us[int(pv.split(".")[0])]] / UNITS[us[ci]]
     eqn = {}
     for ci, c in enumerate(system["comps"]):
         byname = {v["name"]: v["cls"] for v in c["vars"]}
         for q in c["eqs"]:
-            eqn[str(q["id"])] = (byname, q)
+            eqn[str(q["id"])] = (byname, q, ci)
     for e in an.eq_order:
         info = an.eqs[e]
         if info["type"] == "external" or e not in eqn:
             continue
-        byname, q = eqn[e]
+        byname, q, ci = eqn[e]
 
-        def val(x, byname=byname, q=q):
+        def val(x, byname=byname, q=q, ci=ci):
             kind, n = x
             if kind == "n":
                 return float(q["id"])
-            return slot(byname[n], final, rate=(kind == "d"))
+            k = byname[n]
+            f = scale_of(k, ci)
+            if kind == "d":
+                if an.vars.get(k, {}).get("array") != "states":
+                    return float("nan")          # the rate of a variable that is not a state is not available anywhere
+                if an.voi is not None:
+                    f = f / scale_of(an.voi, ci)
+            return slot(k, final, rate=(kind == "d")) * f
         ops = A.OPS[q["id"] % 3:] + A.OPS[:q["id"] % 3]
         lhs = eval_side(q["lhs"], ops, val)
         rhs = eval_side(q["rhs"], ops, val)
@@ -941,6 +1002,16 @@ def make_variants(rng, base_system, base):
                     v["init"] = None
         if ok:
             out.append(("constant-without-value", s, base_system, [base.vars[k]["var"]]))
+    # (C) a state loses its initial value ("is used in an ODE, but it is not initialised"); marked, it should be an input
+    sts = [k for k, v in base.vars.items() if v["type"] == "state"]
+    if sts:
+        k = rng.choice(sts)
+        s = json.loads(json.dumps(base_system))
+        for c in s["comps"]:
+            for v in c["vars"]:
+                if v["cls"] == k:
+                    v["init"] = None
+        out.append(("state-without-value", s, base_system, [base.vars[k]["var"]]))
     # (B) the equation of a directly computed variable is dropped
     direct = [k for k, v in base.vars.items() if v["type"] in ("algebraic", "computed_constant") and len(v["eqs"]) == 1
               and base.eqs.get(v["eqs"][0], {}).get("type") in ("algebraic", "true_constant", "variable_based_constant")]
@@ -995,6 +1066,12 @@ def run(ctx):
         systems.append((sd["system"], sd.get("marks")))
     while len(systems) < n_models + len(seeds):
         s = A.random_system(rng, max_classes=rng.choice([4, 6, 8, 10]))
+        # every second multi-component system: compatible but differently scaled units per component (volt / millivolt /
+        # kilovolt), so that the uses of a connected variable in another component carry a scaling factor
+        if len(s["comps"]) > 1 and rng.random() < 0.6:
+            names = list(UNITS)
+            rng.shuffle(names)
+            s["_units"] = [names[i % 3] for i in range(len(s["comps"]))]
         systems.append((s, None))
     # NLA equations coupled through the variables that get marked (grouping after pruning)
     n_nla = 40 if quick else 500
@@ -1004,7 +1081,8 @@ def run(ctx):
         systems.append((s, {"markings": ms}))
         n_nla_systems += 1
     base_raw = run_sharded(drv, [], ["%s g -" % cellml_hex(s) for s, _ in systems], ctx.workdir, "base")
-    base_impl = [strip_fields(l, ("CH", "CC")) for l in base_raw]
+    base_impl = [re.sub(r"(?<= I=)\S*", lambda m: ",".join(x for x in m.group(0).split(",") if x and not x.startswith("W:UNITS")),
+                        strip_fields(l, ("CH", "CC")), count=1) for l in base_raw]
     bases = [Analysis(s, l) for (s, _), l in zip(systems, base_impl)]
 
     # the unmarked programs are run as well: an equation that does not hold WITHOUT marks (e.g. the cyclic NLA dependencies of
@@ -1025,7 +1103,7 @@ def run(ctx):
 
     cases = []       # dict(kind, mi, system, marks, roles, gen, extra)
     hist = {"model_type": {}, "roles_marked": {r: 0 for r in ROLES}, "roles_by_model_type": {}, "marks_per_case": {},
-            "case_kind": {}, "marked_result_type": {}, "dependency_graph": {}, "nla_coupled_systems": {}, "nla_systems_in_marked_results": {}, "messages": {}, "adddependency_refused": 0, "adddependency_accepted": 0,
+            "case_kind": {}, "marked_result_type": {}, "dependency_graph": {}, "nla_coupled_systems": {}, "systems_with_scaled_units": 0, "nla_systems_in_marked_results": {}, "messages": {}, "adddependency_refused": 0, "adddependency_accepted": 0,
             "executed": 0, "callbacks": 0, "dependency_checks_at_runtime": 0, "value_checks": 0, "nla_not_converged": 0,
             "independent_classes_compared": 0, "value_failures_also_without_marks": 0, "unmarked_models_with_failing_equations": 0, "not_executed_unmarked_program_fails": 0, "value_failures_in_mutually_dependent_nla_systems": 0, "variants": {}, "models_becoming_invalid_when_marked": 0}
 
@@ -1035,6 +1113,8 @@ def run(ctx):
         if not b.ok or not b.valid:
             continue
         bump("model_type", b.type)
+        if s.get("_units"):
+            hist["systems_with_scaled_units"] += 1
         if isinstance(fixed_marks, dict):
             marks_list = [(m, ["nla_coupling"]) for m in fixed_marks["markings"]]
             bump("nla_coupled_systems", b.type)
@@ -1120,14 +1200,16 @@ def run(ctx):
     def payload(i, extra=None):
         c = cases[i]
         d = {"kind": c["kind"], "system": c["system"], "marks": [list(m) for m in c["marks"]], "marks_text": marks_text(c["marks"]),
-             "model_line": A.to_model_line(c["system"]), "cellml": A.to_cellml(c["system"], A.Naming("plain"), init_value=init_value),
+             "model_line": A.to_model_line(c["system"]), "cellml": cellml_text(c["system"]),
              "impl": strip_fields(impl_raw[i], ("CH", "CC")), "model": model_raw[i],
              "base": strip_fields(base_impl[c["mi"]], ("CH", "CC"))}
         if extra:
             d.update(extra)
         return d
 
-    impl = [strip_fields(l, ("CH", "CC")) for l in impl_raw]
+    def drop_unit_warnings(l):
+        return re.sub(r"(?<= I=)\S*", lambda m: ",".join(x for x in m.group(0).split(",") if x and not x.startswith("W:UNITS")), l, count=1)
+    impl = [drop_unit_warnings(strip_fields(l, ("CH", "CC"))) for l in impl_raw]
     model = [strip_fields(l, ("BI", "BC", "BR", "BV", "ACY", "ORD")) for l in model_raw]
     ans = [Analysis(c["system"], l) for c, l in zip(cases, impl)]
     distinct = set()
@@ -1257,6 +1339,15 @@ def run(ctx):
         if not (u.ok and k.ok and m.ok):
             continue
         name = c["variant"]
+        if name == "state-without-value":
+            ok_u = u.type == "underconstrained" and u.errors() and all(x.startswith("E:STATE_NOT_INIT") for x in u.errors())
+            bump("variants", "%s/%s" % (name, "applicable" if ok_u and k.valid else "not-applicable"))
+            if ok_u and k.valid and not m.valid:
+                if not ctx.known_finding("C20-uninitialised-state-not-rescued",
+                                         "a state without initial value marked as external leaves the model %s (%s)" % (m.type, ",".join(m.errors()))):
+                    violation("C20 oracle: a state without initial value marked as external is not rescued (%s)" % m.type, "rescue_state",
+                              {"unmarked": payload(c["group"]), "marked": payload(i)})
+            continue
         applicable = (u.type == "underconstrained" and all(x.startswith("E:UNUSED") for x in u.errors()) and k.valid)
         bump("variants", "%s/%s" % (name, "applicable" if applicable else "not-applicable"))
         if not applicable:
@@ -1280,7 +1371,7 @@ def run(ctx):
         u, m = ans[c["group"]], ans[i]
         if not (u.ok and m.ok) or u.type != "underconstrained":
             continue
-        still = {m.cls[tuple(int(z) for z in x.split(":")[2].split("."))] for x in m.errors() if x.startswith("E:UNUSED:")}
+        still = {m.cls[tuple(int(z) for z in x.split(":")[2].split("."))] for x in m.errors() if x.startswith("E:UNUSED:") or x.startswith("E:STATE_NOT_INIT:")}
         if m.valid or not set(c["unknown"]) <= still:
             violation("C20 oracle: marking another variable rescues an unknown that is not marked (%s)" % m.type, "rescue_other",
                       {"unmarked": payload(c["group"]), "other_marked": payload(i)})
@@ -1448,7 +1539,7 @@ def replay(ctx, path):
         c = vf.sh([drv, cf])[1].strip()
         m = vf.sh([mdl, "analyse", mf])[1].strip()
         u = vf.sh([mdl, "unfixed", mf])[1].strip()
-        print(A.to_cellml(s, A.Naming("plain"), init_value=init_value))
+        print(cellml_text(s))
         print("marks :", marks_text(marks))
         print("impl  :", strip_fields(c, ("CH", "CC")))
         print("model :", m)
